@@ -1,5 +1,6 @@
 import GeffModel.Proto
 import GeffModel.Tracklet
+import GeffModel.TrackletData
 open Lean Geff Geff.Proto Geff.Tracklet
 
 def verdictJson : Verdict Int → Json
@@ -15,9 +16,61 @@ def getBoolList (j : Json) : Except String (List Bool) := do
   let a ← j.getArr?
   a.toList.mapM fun b => b.getBool?
 
-/-- request: {"nodes":[..], "labels":[..], "edges":[[u,v],..], "missing": null | [bool..]}
-(`zip` is non-strict as in Python; "missing" present = through validate_data's node selection) -/
+def getOptBoolList (j : Json) (k : String) : Except String (Option (List Bool)) :=
+  match j.getObjVal? k with
+  | .ok Json.null => pure none
+  | .ok m => do pure (some (← getBoolList m))
+  | .error _ => pure none
+
+def getStrPairs (j : Json) : Except String (List (String × String)) := do
+  let a ← j.getArr?
+  a.toList.mapM fun p => do
+    let q ← p.getArr?
+    if q.size = 2 then return (← q[0]!.getStr?, ← q[1]!.getStr?) else throw "pair expected"
+
+def getProps (j : Json) : Except String (List (String × IdProp)) := do
+  let a ← j.getArr?
+  a.toList.mapM fun p => do
+    let q ← p.getArr?
+    if q.size = 2 then
+      let vals ← getIntList (← q[1]!.getObjVal? "values")
+      return (← q[0]!.getStr?, { values := vals, missing := ← getOptBoolList q[1]! "missing" })
+    else throw "pair expected"
+
+def dataJson : DataOutcome → Json
+  | .ok => Json.mkObj [("outcome", "ok")]
+  | .valueError a b => Json.mkObj [("outcome", "ValueError"), ("args", Json.arr #[Json.str a, Json.str b])]
+  | .keyError k => Json.mkObj [("outcome", "KeyError"), ("args", Json.arr #[Json.str k])]
+  | .indexError => Json.mkObj [("outcome", "IndexError")]
+  | .raised n => Json.mkObj [("outcome", n)]
+
+/-- requests:
+* (no "op") {"nodes":[..], "labels":[..], "edges":[[u,v],..], "missing": null | [bool..]}
+  (`zip` is non-strict as in Python; "missing" present = through validate_data's node selection)
+* {"op":"arrays", nodes, labels, edges} — `validate_tracklets` on integer arrays: int64 cast, rendered messages
+* {"op":"data", cfg:{tracklet,lineage}, tnp: null | [[key,prop]..], props:[[name,{values,missing}]..], nodes, edges}
+  — the tracklet / lineage block of `validate_data` -/
 def handle (j : Json) : Except String Json := do
+  let op := (j.getObjValAs? String "op").toOption.getD ""
+  if op == "arrays" then
+    let nodes ← getIntList (← j.getObjVal? "nodes")
+    let labels ← getIntList (← j.getObjVal? "labels")
+    let edges ← getIntPairs (← j.getObjVal? "edges")
+    match validateTrackletsArrays nodes labels edges with
+    | .raised n => return Json.mkObj [("exc", n)]
+    | .result v msgs =>
+      return Json.mkObj [("valid", Json.bool v), ("messages", Json.arr (msgs.map Json.str).toArray)]
+  if op == "data" then
+    let nodes ← getIntList (← j.getObjVal? "nodes")
+    let edges ← getIntPairs (← j.getObjVal? "edges")
+    let cj ← j.getObjVal? "cfg"
+    let cfg : TrackCfg := { tracklet := ← (← cj.getObjVal? "tracklet").getBool?,
+                            lineage := ← (← cj.getObjVal? "lineage").getBool? }
+    let tj ← j.getObjVal? "tnp"
+    let tnp ← (if tj.isNull then pure none else do pure (some (← getStrPairs tj)))
+    let props ← getProps (← j.getObjVal? "props")
+    return dataJson (validateDataTracks cfg tnp props nodes edges)
+  if op != "" then throw s!"unknown op {op}"
   let nodes ← getIntList (← j.getObjVal? "nodes")
   let labels ← getIntList (← j.getObjVal? "labels")
   let edges ← getIntPairs (← j.getObjVal? "edges")
